@@ -37,7 +37,60 @@ def run(ctx: Ctx):
     ctx.not_decided += ["speed bound / progress every step / exact odometer on partially covered street links (geometric, numeric)"]
 
 
-def move_bookkeeping(ctx: Ctx):
+def _chain(e: ast.AST, methods=None):
+    """x.m1(a).m2(b) -> (x, [(m1, call1), (m2, call2)]); only methods in `methods` are peeled when given"""
+    steps = []
+    while isinstance(e, ast.Call) and isinstance(e.func, ast.Attribute) and (methods is None or e.func.attr in methods):
+        steps.append((e.func.attr, e))
+        e = e.func.value
+    return e, list(reversed(steps))
+
+
+def _arg(call: ast.Call, kw: str):
+    for k in call.keywords:
+        if k.arg == kw:
+            return k.value
+    return call.args[0] if call.args else None
+
+
+def _move_parts(committed: ast.AST, consumed: str, trav: str, vmethods):
+    """Judge the committed vehicle of move() part by part -> {part: (ok, what was found)}. The vehicle is a chain of
+    modifiers on the consumed vehicle; each property reads only the parts it depends on."""
+    base, steps = _chain(committed, vmethods)
+    by = {}
+    for nm, c in steps:
+        by.setdefault(nm, []).append(c)
+    out = {}
+    out["energy"] = (flow.dump(base) == consumed, flow.dump(base)[:160])
+    pos = by.get("modify_position", [])
+    want_pos = f"EntityPosition({trav}.experienced_route[-1].link_id, {trav}.experienced_route[-1].end)"
+    out["position"] = (len(pos) == 1 and _arg(pos[0], "position") is not None and flow.dump(_arg(pos[0], "position")) == want_pos,
+                       flow.dump(_arg(pos[0], "position"))[:160] if pos and _arg(pos[0], "position") is not None else f"{len(pos)} modify_position calls")
+    odo = by.get("tick_distance_traveled_km", [])
+    out["odometer"] = (len(odo) == 1 and odo[0].args and flow.dump(odo[0].args[0]) == f"{trav}.traversal_distance_km",
+                       flow.dump(odo[0].args[0])[:160] if odo and odo[0].args else f"{len(odo)} odometer ticks")
+    st = by.get("modify_vehicle_state", [])
+    ok_r, found = False, f"{len(st)} modify_vehicle_state calls"
+    if len(st) == 1 and steps and steps[-1][1] is st[0]:
+        a = _arg(st[0], "vehicle_state")
+        found = flow.dump(a)[:160] if a is not None else "?"
+        if isinstance(a, ast.Call) and isinstance(a.func, ast.Attribute) and a.func.attr == "update_route":
+            r = _arg(a, "route")
+            recv = a.func.value
+            # the activity whose route is replaced is the moving vehicle's own activity
+            own = isinstance(recv, ast.Attribute) and recv.attr == "vehicle_state" and flow.dump(_chain(recv.value, vmethods)[0]) in (consumed, flow.dump(base))
+            ok_r = r is not None and flow.dump(r) == f"{trav}.remaining_route" and own
+    out["route"] = (ok_r, found)
+    known = {"modify_position", "tick_distance_traveled_km", "modify_vehicle_state"}
+    extra = [nm for nm, _ in steps if nm not in known]
+    out["nothing-else"] = (not extra, f"further modifiers {extra}")
+    return out
+
+
+ALL_PARTS = ("energy", "position", "odometer", "route", "nothing-else")
+
+
+def move_bookkeeping(ctx: Ctx, parts=ALL_PARTS):
     fn = ctx.repo.func(VO, "move")
     sim, env, vid = fn.params[:3]
     veh = f"{sim}.vehicles.get({vid})"
@@ -61,10 +114,21 @@ def move_bookkeeping(ctx: Ctx):
         d = flow.dump(c.args[1]) if len(c.args) > 1 else "?"
         s_ok = flow.dump(c.args[0]) == sim
         traversed = any(flow.dump(a) == f"{trav}.experienced_route" and pol is True for a, pol in p.facts())
+        if any(flow.dump(a) == f"{mech}.is_empty({consumed})" and pol is True for a, pol in p.facts()):
+            continue  # the out-of-energy branch: the vehicle does not travel on; what it may commit there is C04-D4's clause
         if traversed:
             n_move += 1
-            ctx.check(s_ok and d == final, "D1", "DU.move", "move(): committed vehicle = consumed vehicle at the end of the last experienced link, odometer += traversal distance, route = remaining route", fn, p.end,
-                      why_bad=f"commits {d[:420]}", construct="move:bookkeeping")
+            vcls = ctx.repo.cls("nrel/hive/model/vehicle/vehicle.py", "Vehicle")
+            vmethods = {f.name for f in ctx.repo.all_funcs() if f.cls is not None and f.cls.name == "Vehicle" and f.relpath == vcls.relpath}
+            judged = _move_parts(c.args[1], consumed, trav, vmethods) if len(c.args) > 1 else {}
+            LABEL = {"energy": "the committed vehicle is the consumed vehicle", "position": "position = end of the last experienced link",
+                     "odometer": "odometer += the traversal's distance", "route": "the activity's route = the remaining route",
+                     "nothing-else": "no other modifier is applied"}
+            ctx.check(s_ok, "D1", "DU.move", "move(): the commit is made on the state move() was given", fn, p.end, why_bad=f"commits to {flow.dump(c.args[0])[:80]}", construct="move:bookkeeping:state")
+            for part in parts:
+                okp, found = judged.get(part, (False, "?"))
+                ctx.check(bool(okp), "D1", "DU.move", f"move(): {LABEL[part]}", fn, p.end,
+                          why_bad=f"found {found}; committed vehicle {d[:300]}", construct=f"move:bookkeeping:{part}")
         else:
             n_reset += 1
             reset2 = f"{veh}.modify_vehicle_state({veh}.vehicle_state.update_route(route={trav}.remaining_route))"
